@@ -32,6 +32,36 @@ def sig(pkey, skey, observable, trigger):
     return dict(property=PID, env=skey.partition(":")[0], config=f"{pkey}|{skey.partition(':')[2]}", observable=observable, trigger=trigger)
 
 
+class _MixedMTVRP:
+    """MTVRP batches are mixed by design (every row carries its own variant features): a pseudo-environment whose
+    alphabet takes instances of several variants (with and without time windows / limits / backhauls / open routes)"""
+
+    key = "mtvrp:mixed"
+    kind = "mtvrp"
+    PARTS = ("mtvrp:vrptw", "mtvrp:cvrp", "mtvrp:ovrpl", "mtvrp:vrpbltw")
+
+    def instances(self, tier, seed):
+        out = []
+        for k in self.PARTS:
+            hand = [x for x in ALL_SPECS[k].instances("quick", seed) if not x[0].startswith("gen-")]
+            i = 1 if len(hand) > 1 else 0
+            out.append((f"{k.partition(':')[2]}/{hand[i][0]}", hand[i][1]))
+        return out
+
+    def env(self, inst, **kw):
+        return ALL_SPECS[self.PARTS[0]].env(inst, **kw)
+
+    def td(self, inst):
+        return ALL_SPECS[self.PARTS[0]].td(inst)
+
+
+EXTRA_PAIRS = [("am", "mtvrp:mixed", dict(base=True)), ("am", "mtvrp:vrptw", dict(base=True))]
+
+
+def spec_of(skey):
+    return _MixedMTVRP() if skey == "mtvrp:mixed" else ALL_SPECS[skey]
+
+
 def shape_sig(td):
     return E.group_sig(td)
 
@@ -74,7 +104,7 @@ def top2_gap_at(pol, env, td0, prefix):
 
 def unit(item):
     pkey, skey, flags, tier, seed, wseed = item
-    spec = ALL_SPECS[skey]
+    spec = spec_of(skey)
     p = Partial()
     want = 5 if tier == "thorough" else 4
     insts = stackable_instances(spec, seed, 10)
@@ -198,7 +228,7 @@ def main(tier):
     seed = seed_from_env()
     only = os.environ.get("VERIF_ONLY")
     items = []
-    for pkey, skey, flags in PAIRS:
+    for pkey, skey, flags in PAIRS + EXTRA_PAIRS:
         if only and only not in f"{pkey}|{skey}":
             continue
         for ws in (0,) if tier == "quick" else (0, 1):
@@ -209,8 +239,8 @@ def main(tier):
 
 
 def replay(rec):
-    spec = ALL_SPECS[rec["spec"]]
-    flags = next(f for pk, sk, f in PAIRS if pk == rec["policy"] and sk == rec["spec"])
+    spec = spec_of(rec["spec"])
+    flags = next(f for pk, sk, f in PAIRS + EXTRA_PAIRS if pk == rec["policy"] and sk == rec["spec"])
     insts = [(d["instance_id"], d["instance"], spec.td(d["instance"])) for d in rec["instances"]]
     env = spec.env(insts[0][1])
     pol = make(rec["policy"], env, rec["wseed"])
